@@ -220,6 +220,7 @@ def check(case, ctx):
         ctx.check(got_ss == (n_ if pdim == 1 else [n_] * pdim), 'container-grid/sample_size-roundtrip', 'container.sample_size set to %d reads back %r'
                   % (n_, got_ss), what='grid_shape')
         cpts = cont.evalpts
+        kept_pts, kept_copy = cpts, [list(p_) for p_ in cpts]       # the caller keeps the list it was handed
         ctx.check(len(cpts) == len(members) * n_ ** pdim, 'container-grid/size', 'container.sample_size = %d over %d %s(s): evalpts has %d points, '
                   'documented %d x %d^%d = %d' % (n_, len(members), ccls.__name__[:-9].lower(), len(cpts), len(members), n_, pdim,
                                                    len(members) * n_ ** pdim), what='grid_shape')
@@ -229,6 +230,12 @@ def check(case, ctx):
             c1 = G.evaluate_single(o, [b for a, b in doms])
             ctx.check(all(abs(x - y) <= 1e-12 * sc for x, y in zip(first, c0)) and all(abs(x - y) <= 1e-12 * sc for x, y in zip(last, c1)),
                       'container-grid/corner', "the container's samples of its first shape do not start / end on the domain corners", what='corner')
+        # a later change of the sampling gives the container a new grid; the list handed out before still holds the old one
+        cont.sample_size = n_ + 1
+        cont.evalpts
+        ctx.check([list(p_) for p_ in kept_pts] == kept_copy, 'container-grid/kept-list-changed', 'the evalpts list handed out by the container (%d '
+                  'points) holds %d points after the container was re-sampled: it was emptied / refilled in place' % (len(kept_copy), len(kept_pts)),
+                  what='grid_shape')
     # -- evaluate(start, stop) on a sub-range ---------------------------------------------------------------------
     sub = []
     for a, b in doms:
